@@ -67,12 +67,14 @@
  *   position.  A token that contains an octet without a role (controls, NUL in
  *   length-delimited input, >= 0x7f, other punctuation) is OPEN.
  *
- * "No allocation leaked": a block that is still live when the parser returns
- * an error (or after sx_destroy of the returned tree) is a leak only if the
- * same happens again when the same input is presented a second time; a block
- * the parser allocates once and keeps for later calls (reachable scratch
- * memory) is not.  So a non-empty ledger triggers a second presentation with a
- * fresh ledger and the clause is reported only if that one is non-empty too.
+ * "No allocation leaked": leak means growth.  A block that is still live when
+ * the parser returns an error (or after sx_destroy of the returned tree) is a
+ * leak only if presenting the same input again and again makes the number of
+ * live blocks grow; a block the parser allocates once and keeps for later
+ * calls (reachable scratch memory), or one that it replaces on every call (a
+ * most-recent-diagnostic buffer), is not.  So a non-empty ledger triggers two
+ * further presentations under one fresh ledger, and the clause is reported
+ * only if more is live after the third presentation than after the second.
  */
 #include "mc.h"
 
@@ -110,6 +112,9 @@ void *__real_realloc(void *, size_t);
 void __real_free(void *);
 char *__real_strdup(const char *);
 char *__real_strndup(const char *, size_t);
+void *__real_reallocarray(void *, size_t, size_t);
+void *__real_aligned_alloc(size_t, size_t);
+int __real_posix_memalign(void **, size_t, size_t);
 
 static inline uint32_t
 ledger_hash(const void *p)
@@ -224,6 +229,48 @@ __wrap_strndup(const char *s, size_t n)
     return p;
 }
 
+/* the other ways the C library hands out or resizes a block: a block that
+ * comes from calloc and is grown with reallocarray must not stay "live" under
+ * its old address for ever */
+void *
+__wrap_reallocarray(void *old, size_t n, size_t size)
+{
+    void *p = __real_reallocarray(old, n, size);
+    if (p != NULL || n == 0 || size == 0)
+        ledger_del(old);
+    ledger_add(p);
+    return p;
+}
+
+void *
+__wrap_aligned_alloc(size_t alignment, size_t n)
+{
+    void *p = __real_aligned_alloc(alignment, n);
+    ledger_add(p);
+    return p;
+}
+
+int
+__wrap_posix_memalign(void **out, size_t alignment, size_t n)
+{
+    const int rc = __real_posix_memalign(out, alignment, n);
+    if (rc == 0)
+        ledger_add(*out);
+    return rc;
+}
+
+static int
+ledger_live_now(void)
+{
+    return *(volatile int *)&ledger.live;
+}
+
+static int
+ledger_made_now(void)
+{
+    return *(volatile int *)&ledger.made;
+}
+
 static void
 ledger_start(void)
 {
@@ -318,6 +365,7 @@ struct reader {
     /* what the accepted part contained (classification only) */
     bool saw_list, saw_nested_list, saw_nested_empty, saw_hex, saw_hex_upper;
     bool open_unclassified; /* V_OPEN because of an octet nobody classifies */
+    bool open_wide_integer; /* V_OPEN because of an integer literal beyond 64 bits */
     int deepest;            /* deepest list nesting entered */
     long longest;           /* most direct elements of one completed list */
 };
@@ -430,8 +478,16 @@ rd_expr(struct reader *r, int depth)
         for (size_t k = 0; k < len; ++k) {
             if (!ref_dec(t[k]))
                 return rd_fail(r, V_ERR, tokerr);
-            if (v > UINT64_MAX / 10u || (v == UINT64_MAX / 10u && (uint64_t)(t[k] - '0') > UINT64_MAX % 10u))
-                mc_broken("generated a decimal literal beyond 64 bits");
+            if (v > UINT64_MAX / 10u || (v == UINT64_MAX / 10u && (uint64_t)(t[k] - '0') > UINT64_MAX % 10u)) {
+                /* the statement's "unsigned integers" are the values a node can
+                 * hold; what a literal beyond 64 bits reads as is not said: OPEN
+                 * (only the history and environment families generate these) */
+                for (size_t q = k; q < len; ++q)
+                    if (!ref_dec(t[q]))
+                        return rd_fail(r, V_ERR, tokerr);
+                r->open_wide_integer = true;
+                return rd_fail(r, V_OPEN, E_NONE);
+            }
             v = v * 10u + (uint64_t)(t[k] - '0');
         }
         const int x = r_new(R_INT);
@@ -448,8 +504,13 @@ rd_expr(struct reader *r, int depth)
             const int d = ref_hexval(t[k]);
             if (d < 0)
                 return rd_fail(r, V_ERR, tokerr);
-            if (k - 2 >= 16)
-                mc_broken("generated a hex literal beyond 64 bits");
+            if (v >> 60) { /* a seventeenth significant digit: beyond 64 bits, OPEN as above */
+                for (size_t q = k; q < len; ++q)
+                    if (ref_hexval(t[q]) < 0)
+                        return rd_fail(r, V_ERR, tokerr);
+                r->open_wide_integer = true;
+                return rd_fail(r, V_OPEN, E_NONE);
+            }
             if (t[k] >= 'A' && t[k] <= 'F')
                 upper = true;
             v = (v << 4) | (uint64_t)d;
@@ -522,7 +583,8 @@ ref_read(const char *s, size_t n, struct expect *e)
         else e->outcome = "ok-decimal";
     } else if (r.verdict == V_OPEN) {
         /* the token that left it open starts at r.i */
-        e->outcome = r.open_unclassified ? "open-unclassified-octet"
+        e->outcome = r.open_wide_integer ? "open-integer-beyond-64-bits"
+                     : r.open_unclassified ? "open-unclassified-octet"
                      : (r.i < n && s[r.i] == '-') ? "open-dash-token" : "open-symbol-character";
     } else {
         switch (r.err) {
@@ -911,23 +973,37 @@ would_run_at(int k)
 static bool is_success(enum sx_status s) { return s == SXS_SUCCESS; }
 static bool is_error(enum sx_status s) { return s != SXS_SUCCESS && s != SXS_FOUND_LIST; }
 
-/* The ledger was not empty after the first presentation: present the same
- * octets once more with a fresh ledger and return how many blocks allocated by
- * *that* call are still live once a returned tree (if any) has been destroyed.
- * 0 = what stayed behind the first time was a one-time allocation the parser
- * keeps, not a leak.  Same sequence in a sweep and in a replay of the case. */
+/* The ledger was not empty after the first presentation.  A leak is growth:
+ * the same octets are presented twice more, the ledger (started afresh before
+ * the second presentation) being kept across both, and the number of blocks by
+ * which "live" grew from after the second to after the third presentation is
+ * returned (a returned tree is destroyed each time).  0 = what stays behind is
+ * bounded: a block the parser allocates once and keeps, or one it replaces on
+ * every call (a most-recent-diagnostic buffer behind a static pointer), not a
+ * leak.  Same sequence in a sweep and in a replay of the case. */
+/* errno as the caller's earlier business left it when the reader is entered
+ * (-1: whatever it happens to be) */
+static int errno_preset = -1;
+
 static int
-live_on_second_presentation(int via, const char *buf, size_t n)
+growth_on_further_presentations(int via, const char *buf, size_t n)
 {
     ledger_start();
-    struct sx_parse_result again = via ? sx_parse_stringn(buf, n) : sx_parse_string(buf);
-    if (again.node != NULL)
-        sx_destroy(&again.node);
-    ledger.on = false;
-    mc_trans(1);
-    mc_log("second presentation with a fresh ledger: status=%d allocations made=%d live=%d",
-           (int)again.status, ledger.made, ledger.live);
-    return ledger.live;
+    int live[2];
+    for (int k = 0; k < 2; ++k) {
+        ledger.on = true;
+        if (errno_preset >= 0)
+            errno = errno_preset;
+        struct sx_parse_result again = via ? sx_parse_stringn(buf, n) : sx_parse_string(buf);
+        if (again.node != NULL)
+            sx_destroy(&again.node);
+        ledger.on = false;
+        mc_trans(1);
+        live[k] = ledger.live;
+        mc_log("presentation %d (ledger kept from presentation 2 on): status=%d allocations made so far=%d live=%d",
+               k + 2, (int)again.status, ledger.made, ledger.live);
+    }
+    return live[1] > live[0] ? live[1] - live[0] : 0;
 }
 
 /* One call of the reader under the oracle: `in`/n are the octets given to it
@@ -949,6 +1025,8 @@ run_one(int via, const char *in, size_t n, const struct expect *e, const char *c
         buf = mc_exact_copy(in, n);
     }
     ledger_start();
+    if (errno_preset >= 0)
+        errno = errno_preset;
     struct sx_parse_result res = via ? sx_parse_stringn(buf, n) : sx_parse_string(buf);
     ledger.on = false;
     const int live = ledger.live;
@@ -969,9 +1047,9 @@ run_one(int via, const char *in, size_t n, const struct expect *e, const char *c
     if (!is_success(res.status) && res.node != NULL)
         c20_fail("C20/no-tree-on-error", "%sstatus %d with a non-null tree", ctx, (int)res.status);
     if (!is_success(res.status) && res.node == NULL && live != 0) {
-        const int again = live_on_second_presentation(via, buf, n);
+        const int again = growth_on_further_presentations(via, buf, n);
         if (again != 0)
-            c20_fail("C20/no-leak-on-error", "%sstatus %d, no tree, %d allocation(s) still live (%d on a second presentation)",
+            c20_fail("C20/no-leak-on-error", "%sstatus %d, no tree, %d allocation(s) still live (and %d more with every further presentation)",
                     ctx, (int)res.status, live, again);
     }
     if (is_success(res.status) && res.node == NULL) {
@@ -980,9 +1058,9 @@ run_one(int via, const char *in, size_t n, const struct expect *e, const char *c
         else
             c20_fail("C20/success-without-tree", "%sstatus success (0) with a null tree: neither a tree nor an error status", ctx);
         if (live != 0) {
-            const int again = live_on_second_presentation(via, buf, n);
+            const int again = growth_on_further_presentations(via, buf, n);
             if (again != 0)
-                c20_fail("C20/no-leak-on-error", "%sno tree, %d allocation(s) still live (%d on a second presentation)", ctx, live, again);
+                c20_fail("C20/no-leak-on-error", "%sno tree, %d allocation(s) still live (and %d more with every further presentation)", ctx, live, again);
         }
     }
 
@@ -1016,9 +1094,9 @@ run_one(int via, const char *in, size_t n, const struct expect *e, const char *c
         const int dlive = ledger.live;
         mc_log("%safter sx_destroy: live=%d", ctx, dlive);
         if (dlive != 0) {
-            const int again = live_on_second_presentation(via, buf, n);
+            const int again = growth_on_further_presentations(via, buf, n);
             if (again != 0)
-                c20_fail("C20/destroy-frees-all", "%s%d allocation(s) of the parser still live after sx_destroy of the returned tree (%d on a second presentation)",
+                c20_fail("C20/destroy-frees-all", "%s%d allocation(s) of the parser still live after sx_destroy of the returned tree (and %d more with every further presentation)",
                         ctx, dlive, again);
         }
     }
@@ -1979,6 +2057,144 @@ family_histories(void)
 }
 
 /* ------------------------------------------------------------------------
+ * family (i): integers at the edge of 64 bits in histories, and errno on entry.
+ * "Parsing the textual rendering of any tree ... yields a structurally
+ * identical tree": the result is a function of the input -- not of what the
+ * process parsed before, and not of the value errno happens to hold when the
+ * reader is entered (a caller's earlier strtol / pow / read may have left any
+ * value there; errno is never an input of a library function).
+ * ---------------------------------------------------------------------- */
+static const struct item INT_ITEMS[] = {
+    /* literals beyond 64 bits: the grammar leaves them open, they are earlier calls
+     * (first, so that the self-contained form [beyond | 2^64-1] is met before any
+     * other case can be influenced by what such a literal leaves behind) */
+    { "\"18446744073709551616\"", I_LIT, "18446744073709551616", 0 },
+    { "\"99999999999999999999\"", I_LIT, "99999999999999999999", 0 },
+    { "\"#x10000000000000000\"", I_LIT, "#x10000000000000000", 0 },
+    { "\"#xFFFFFFFFFFFFFFFFF\"", I_LIT, "#xFFFFFFFFFFFFFFFFF", 0 },
+    { "\"(a 340282366920938463463374607431768211456)\"", I_LIT, "(a 340282366920938463463374607431768211456)", 0 },
+    /* the largest values a node can hold, in every rendering */
+    { "\"18446744073709551615\"", I_LIT, "18446744073709551615", 0 },
+    { "\"#xffffffffffffffff\"", I_LIT, "#xffffffffffffffff", 0 },
+    { "\"#xFFFFFFFFFFFFFFFF\"", I_LIT, "#xFFFFFFFFFFFFFFFF", 0 },
+    { "\"(1 18446744073709551615 a)\"", I_LIT, "(1 18446744073709551615 a)", 0 },
+    { "\"18446744073709551614\"", I_LIT, "18446744073709551614", 0 },
+    { "\"9223372036854775808\"", I_LIT, "9223372036854775808", 0 },
+    { "\"0\"", I_LIT, "0", 0 },
+    { "\"(a (b) 12)\"", I_LIT, "(a (b) 12)", 0 },
+    /* refused integers */
+    { "\"18446744073709551615a\"", I_LIT, "18446744073709551615a", 0 },
+    { "\"#xg\"", I_LIT, "#xg", 0 },
+};
+#define NINT_ITEMS ((int)(sizeof INT_ITEMS / sizeof INT_ITEMS[0]))
+
+static int64_t inthist_cases, errno_cases;
+
+static void
+family_int_histories(void)
+{
+    int ix[3];
+    for (int k = 2; k <= 3; ++k)
+        for (ix[0] = 0; ix[0] < NINT_ITEMS; ++ix[0])
+            for (ix[1] = 0; ix[1] < NINT_ITEMS; ++ix[1])
+                for (ix[2] = 0; ix[2] < (k == 3 ? NINT_ITEMS : 1); ++ix[2])
+                    for (int via = 0; via < 2; ++via) {
+                        inthist_cases++;
+                        char desc[300];
+                        size_t l = 0;
+                        for (int j = 0; j < k; ++j)
+                            l += (size_t)snprintf(desc + l, sizeof desc - l, "%s%s", j ? " | " : "", INT_ITEMS[ix[j]].name);
+                        if (!c20_case("hist-int calls=%d [%s] via=%s", k, desc, via ? "stringn" : "string"))
+                            continue;
+                        bool failed_before = false;
+                        enum verdict last = V_OK;
+                        struct expect e;
+                        for (int j = 0; j < k; ++j) {
+                            if (j > 0 && last != V_OK)
+                                failed_before = true;
+                            last = hist_step(via, &INT_ITEMS[ix[j]], j + 1, k, &e);
+                        }
+                        c20_end(true, last == V_OK && failed_before ? "hist-int-ok-after-open-or-refused" : hist_outcome(failed_before, last));
+                    }
+}
+
+static const struct {
+    int value;
+    const char *name;
+} ERRNOS[] = { { 0, "0" }, { ERANGE, "ERANGE" }, { EINVAL, "EINVAL" }, { EDOM, "EDOM" }, { ENOMEM, "ENOMEM" }, { EINTR, "EINTR" } };
+#define NERRNOS ((int)(sizeof ERRNOS / sizeof ERRNOS[0]))
+
+static void
+errno_case(const char *what, const char *in, size_t n, int ek)
+{
+    for (int via = 0; via < 2; ++via) {
+        errno_cases++;
+        if (!c20_case("errno=%s on entry, %s via=%s", ERRNOS[ek].name, what, via ? "stringn" : "string"))
+            continue;
+        nR = 0;
+        struct expect e;
+        ref_read(in, n, &e);
+        errno_preset = ERRNOS[ek].value;
+        run_one(via, in, n, &e, "");
+        errno_preset = -1;
+        c20_end(true, e.verdict == V_OK ? "errno-preset-ok" : e.verdict == V_ERR ? "errno-preset-refused" : "errno-preset-open");
+    }
+}
+
+static void
+family_errno(void)
+{
+    /* every input of the history vocabularies ... */
+    for (int ek = 0; ek < NERRNOS; ++ek) {
+        for (int k = 0; k < HIST_QUICK; ++k) {
+            char what[120];
+            snprintf(what, sizeof what, "input %s", ITEMS[k].name);
+            put_item(&gen, &ITEMS[k]);
+            errno_case(what, gen.p, gen.n, ek);
+        }
+        for (int k = 0; k < NINT_ITEMS; ++k) {
+            char what[120];
+            snprintf(what, sizeof what, "input %s", INT_ITEMS[k].name);
+            put_item(&gen, &INT_ITEMS[k]);
+            errno_case(what, gen.p, gen.n, ek);
+        }
+    }
+    /* ... and the integer boundary values of the atom family, bare and in a list */
+    uint64_t vals[3 * 64 + 2 * 19 + 2];
+    int nv = 0;
+    vals[nv++] = 0;
+    for (unsigned k = 1; k <= 64; ++k) {
+        const uint64_t pw = k < 64 ? (uint64_t)1 << k : 0;
+        vals[nv++] = pw - 1u;
+        if (k < 64) {
+            vals[nv++] = pw;
+            vals[nv++] = pw + 1u;
+        }
+    }
+    uint64_t ten = 1;
+    for (unsigned k = 1; k <= 19; ++k) {
+        ten *= 10u;
+        vals[nv++] = ten - 1u;
+        vals[nv++] = ten;
+    }
+    static struct tbuf in;
+    for (int ek = 1; ek < NERRNOS; ++ek)
+        for (int i = 0; i < nv; ++i)
+            for (int radix = 0; radix < NRADIX; ++radix)
+                for (int ctx = 0; ctx < 2; ++ctx) {
+                    char what[120];
+                    snprintf(what, sizeof what, "integer %" PRIu64 " %s %s", vals[i], RADIX_NAME[radix], ctx ? "in (1 @ a)" : "bare");
+                    tb_reset(&in);
+                    if (ctx)
+                        tb_puts(&in, "(1 ");
+                    put_integer(&in, vals[i], radix);
+                    if (ctx)
+                        tb_puts(&in, " a)");
+                    errno_case(what, in.p, in.n, ek);
+                }
+}
+
+/* ------------------------------------------------------------------------
  * anchors: the reference reader against the literal values of
  * /repo/test/t-sx-parser.c
  * ---------------------------------------------------------------------- */
@@ -2048,22 +2264,44 @@ anchors(void)
     MC_ANCHOR(is_sym(nth(e.root, 3), "t"), "t_cxr cadddr");
     MC_ANCHOR(is_int(nth(nth(e.root, 4), 0), 5) && len_of(nth(e.root, 4)) == 1, "t_cxr caaddddr");
     MC_ANCHOR(is_int(nth(e.root, 5), 6), "t_cxr cadddddr");
-    /* the ledger is wired to the allocator sx.c really uses: the five nodes of
-     * t_make_things are seen when made, and a free issued by sx.c is seen too
-     * (whether sx_destroy frees *everything* is a clause of the cases, not an
-     * anchor) */
-    ledger_start();
+    /* t_make_things (how many blocks the library takes for it, and whether it
+     * recycles nodes, is its own business: nothing about the ledger here) */
     struct sx_node *t = sx_cons(sx_make_integer(1234567890), sx_cons(sx_make_symbol("foobarbaz"), sx_make_empty_list()));
-    ledger.on = false;
-    MC_ANCHOR(ledger.live >= 5, "t_make_things: at least one allocation per node seen by the ledger");
     MC_ANCHOR(sx_is_the_integer(sx_car(t), 1234567890) && sx_is_the_symbol(sx_car(sx_cdr(t)), "foobarbaz"), "t_make_things");
     sx_destroy(&t);
+    /* The ledger is wired to the allocator names of this link (-Wl,--wrap=...
+     * applies to every object of the link, sx.c included): a block taken and
+     * released by the harness itself through each wrapped name is seen coming
+     * and going.  volatile: the pairs must not be optimised away; the
+     * counters are read through volatile lvalues because the compiler knows
+     * that malloc() and friends do not touch the program's objects. */
     ledger_start();
-    struct sx_node *one = sx_make_integer(1);
-    const int before = ledger.live;
-    sx_destroy(&one);
+    void *volatile w = malloc(1);
+    MC_ANCHOR(w != NULL && ledger_live_now() == 1, "malloc() of this link reaches the ledger");
+    w = realloc(w, 40);
+    MC_ANCHOR(w != NULL && ledger_live_now() == 1, "realloc() of this link reaches the ledger");
+    w = reallocarray(w, 10, 8);
+    MC_ANCHOR(w != NULL && ledger_live_now() == 1, "reallocarray() of this link reaches the ledger");
+    free(w);
+    MC_ANCHOR(ledger_live_now() == 0, "free() of this link reaches the ledger");
+    w = calloc(2, 8);
+    MC_ANCHOR(w != NULL && ledger_live_now() == 1, "calloc() of this link reaches the ledger");
+    free(w);
+    w = aligned_alloc(16, 32);
+    MC_ANCHOR(w != NULL && ledger_live_now() == 1, "aligned_alloc() of this link reaches the ledger");
+    free(w);
+    void *pm = NULL;
+    MC_ANCHOR(posix_memalign(&pm, 16, 32) == 0 && pm != NULL && ledger_live_now() == 1, "posix_memalign() of this link reaches the ledger");
+    w = pm;
+    free(w);
+    w = strdup("wired");
+    MC_ANCHOR(w != NULL && ledger_live_now() == 1, "strdup() of this link reaches the ledger");
+    free(w);
+    w = strndup("wired", 3);
+    MC_ANCHOR(w != NULL && ledger_live_now() == 1, "strndup() of this link reaches the ledger");
+    free(w);
     ledger.on = false;
-    MC_ANCHOR(before >= 1 && ledger.live < before, "a free() issued by sx.c reaches the ledger");
+    MC_ANCHOR(ledger_live_now() == 0 && ledger_made_now() == 8, "the ledger counts what the wiring test allocated");
 }
 
 /* The enumeration runs on a thread with a 1 GiB stack: the reader recurses once
@@ -2087,6 +2325,8 @@ enumerate(void *unused)
     const int olen = mc_thorough() ? 7 : 5;
     in_history_family = true;
     family_histories(); /* first: see "Failures of a sweep are confirmed" above */
+    family_int_histories();
+    family_errno();
     history_family_done();
     family_strings(maxlen);
     family_trees(maxnodes, maxdepth);
@@ -2098,20 +2338,24 @@ enumerate(void *unused)
     family_lengths();
     family_depths();
     family_atoms();
-    char bound[1400];
+    char bound[2200];
     snprintf(bound, sizeof bound,
              "all strings of length 0..%d over \"() \\n a1#xF-\"; all %lld trees of <= %d nodes, depth <= %d over symbols {a,foo,x-1}, integers {0,7,255,2^32,0xabcdef} in %d renderings; "
              "every octet 0..255 in %d one-octet templates, %s octet pairs in %d two-octet templates; all strings of length 0..%d over \"()a1 VT FF CR HT\" and 0..%d over \"()a1 SP NUL 0x80 0xff +\"; "
              "%lld list-length cases (every length 0..%u, 2^p-1..2^p+1 up to 65537; ints/mixed elements, 3 wrappers, 4 endings, 2 separators); "
              "%lld nesting-depth cases (every depth 1..%u, 2^p-1..2^p+1 up to %u; 2 shapes, 3 atoms, 5 endings); "
              "%lld atom cases (symbols of every length 1..%u and 2^p-1..2^p+1 up to 65537 octets in 9 surroundings; integers 0, 2^k-1, 2^k, 2^k+1 (k=1..64), 10^k-1, 10^k (k=1..19) in decimal and both hex cases in 8 surroundings and followed by a letter); "
-             "%lld history cases (all ordered pairs and triples of %d inputs%s; 9 refused/deep inputs repeated 1..129 times before 7 probes); each input NUL-terminated and as exact-size block",
+             "%lld history cases (all ordered pairs and triples of %d inputs%s; 9 refused/deep inputs repeated 1..129 times before 7 probes); "
+             "%lld integer-edge history cases (all ordered pairs and triples of %d inputs: 2^64-1 in three renderings, 2^64-2, 2^63, literals beyond 64 bits, refused integers); "
+             "%lld errno-on-entry cases (errno in {0,ERANGE,EINVAL,EDOM,ENOMEM,EINTR} x the %d history inputs, errno != 0 x the integer boundary values x 3 radixes x bare / in a list); "
+             "each input NUL-terminated and as exact-size block",
              maxlen, (long long)trees_emitted, maxnodes, maxdepth, (int)NSTYLE,
              NOCT_TEMPLATE, mc_thorough() ? "all 65536" : "23x23", NOCT2_TEMPLATE, wlen, olen,
              (long long)len_cases, LEN_DENSE,
              (long long)depth_cases, DEPTH_DENSE, mc_thorough() ? 4097u : 1025u,
              (long long)atom_cases, mc_thorough() ? 300u : 80u,
-             (long long)hist_cases, mc_thorough() ? NITEMS : HIST_QUICK, mc_thorough() ? ", all quadruples of 14" : "");
+             (long long)hist_cases, mc_thorough() ? NITEMS : HIST_QUICK, mc_thorough() ? ", all quadruples of 14" : "",
+             (long long)inthist_cases, NINT_ITEMS, (long long)errno_cases, HIST_QUICK + NINT_ITEMS);
     mc_finish(true, bound);
     return NULL;
 }
